@@ -967,6 +967,7 @@ class Interp:
         if builtins_:
             self.builtins.update(builtins_)
         self.call_counts = {}
+        self.exact_rationals = False
         self.func_stack = []
         self.call_hook = call_hook
 
@@ -1458,6 +1459,8 @@ class Interp:
         if isinstance(op, ast.Div) and not is_sym(a) and not is_sym(b) and isinstance(a, (int, float)) and isinstance(b, (int, float)):
             if b == 0:
                 raise ZeroDivisionError("division by zero")
+            if type(a) is int and type(b) is int and a % b != 0 and self.exact_rationals:
+                return SR(z3.RealVal("%d/%d" % (a, b)))  # L-FLOAT: a literal quotient like 1 / 3 denotes the rational number
         f = {ast.Add: o.add, ast.Sub: o.sub, ast.Mult: o.mul, ast.Div: o.truediv, ast.Mod: o.mod, ast.Pow: o.pow,
              ast.FloorDiv: o.floordiv, ast.BitAnd: o.and_, ast.BitOr: o.or_, ast.MatMult: o.matmul,
              ast.BitXor: o.xor, ast.LShift: o.lshift, ast.RShift: o.rshift}.get(type(op))
